@@ -118,6 +118,8 @@ def normalize_op(o):
         return ("process", o[1], o[2], list(o[3]), plan(o[4]))
     if o[0] == "enqueue":
         return ("enqueue", o[1], o[2])
+    if o[0] == "reset":
+        return ("reset",)
     return (o[0], list(o[1]), plan(o[2]))
 
 class Stats:
@@ -134,8 +136,15 @@ class Stats:
 
 def run_cases(prop, spec, cases, stats, log):
     """cases: list of (name, md, cfg, [ops lists]); returns (mismatches, violations)"""
-    jobs = [(n, md, c, opss) for (n, md, c, opss) in cases if msmgen.supported(md, c)]
-    stats.unsupported += len(cases) - len(jobs)
+    jobs = []
+    for (n, md, c, opss) in cases:
+        md2 = msmgen.adapt(md, c)
+        if md2 is None:
+            stats.unsupported += 1
+        else:
+            if md2 is not md:
+                stats.dist[("machine adapted to configuration (own internal tables dropped)",)] += 1
+            jobs.append((n, md2, c, opss))
     def work(j):
         n, md, c, opss = j
         exe, dt, err = corr.build_binary(md, c)
